@@ -23,7 +23,7 @@ func init() {
 	Registry["C02"] = Spec{
 		Fn:          c02,
 		Level:       "exploration",
-		Rule:        "generated (Options, Query, client revision, server revision, compression) executions of Client.Do against the synchronous scripted server: ids/bodies empty/long/non-UTF8, 0..n connection-level and query-level settings with flags (in a third of the cases one key appears on both levels or twice on one), parameters, secret, initial user, quota keys, span contexts, external data with/without table name, input columns drawn from the whole catalogue, one representative revision per interval of the feature table (and both neighbours of every threshold) on either side, {Disabled, None, LZ4, LZ4HC, ZSTD}. A bare follow-up query on the same connection must carry none of the first query's per-query fields. The recorded client byte stream is parsed by the reference codec at the negotiated revision and compared field by field with the expectation computed from the caller's inputs; nothing may be left over. Non-trivial = at least one of {settings, parameters, external data, input block, compression}; distinct = (field-presence vector, negotiated revision, compression, input type)",
+		Rule:        "generated (Options, Query, client revision, server revision, compression) executions of Client.Do against the synchronous scripted server: ids/bodies empty/long/non-UTF8, 0..n connection-level and query-level settings with flags (in a third of the cases one key appears on both levels or twice on one), parameters, secret, initial user, quota keys, span contexts, external data with/without table name, input columns drawn from the whole catalogue, one representative revision per interval of the feature table (and both neighbours of every threshold) on either side, {Disabled, None, LZ4, LZ4HC, ZSTD}. Follow-up inserts on the same connection grow by one row of high-entropy data (100..4000 rows, and 140000..160000 rows = frames above 1 MiB). A bare follow-up query on the same connection must carry none of the first query's per-query fields. The recorded client byte stream is parsed by the reference codec at the negotiated revision and compared field by field with the expectation computed from the caller's inputs; nothing may be left over. Non-trivial = at least one of {settings, parameters, external data, input block, compression}; distinct = (field-presence vector, negotiated revision, compression, input type)",
 		Assumptions: []string{"reference stream parser harness/internal/simnet + ref; 'supported window': settings need revision >= 54429 (library limitation recorded under C17), parameters >= 54459 must otherwise be refused before anything is written"},
 		MinDistinct: 200,
 	}
@@ -413,6 +413,11 @@ func c02One(r *core.Run, ci int64, rng *rand.Rand, reps []int) {
 	// writer buffers) must not leak into later packets; sizes grow by one row of high-entropy data
 	if len(inp) > 0 && ci%2 == 0 {
 		base := []int{100, 1000, 4000}[rng.Intn(3)]
+		if ci%8 == 0 {
+			// blocks whose (compressed or plain) frame exceeds 1 MiB: high-entropy rows
+			base = 140000 + rng.Intn(20000)
+			r.Count("followup_inserts_over_1MiB", 1)
+		}
 		for k := 0; k < 4; k++ {
 			col := new(proto.ColUInt64)
 			var vals []ref.Val
